@@ -6,8 +6,10 @@ pub mod c03;
 pub mod c06;
 pub mod c07;
 pub mod c08;
+pub mod c11;
 pub mod c14;
 pub mod c15;
+pub mod c16;
 pub mod c18;
 
 pub fn get(id: &str) -> Option<Box<dyn Monitor>> {
@@ -18,8 +20,10 @@ pub fn get(id: &str) -> Option<Box<dyn Monitor>> {
         "C06" => Some(Box::new(c06::C06)),
         "C07" => Some(Box::new(c07::C07)),
         "C08" => Some(Box::new(c08::C08)),
+        "C11" => Some(Box::new(c11::C11)),
         "C14" => Some(Box::new(c14::C14)),
         "C15" => Some(Box::new(c15::C15)),
+        "C16" => Some(Box::new(c16::C16)),
         "C18" => Some(Box::new(c18::C18)),
         _ => None,
     }
